@@ -758,10 +758,14 @@ impl DirectAddrUpdateState {
     fn schedule_run(&mut self, why: UpdateReason, if_state: IfStateDetails) {
         match self.net_reporter.clone().try_lock_owned() {
             Ok(net_reporter) => {
+                #[cfg(feature = "verif-hooks")]
+                iroh_base::verif_hooks::event("direct_addr:schedule_run", "started");
                 self.run(why, if_state, net_reporter);
             }
             Err(_) => {
                 let _ = self.want_update.insert(why);
+                #[cfg(feature = "verif-hooks")]
+                iroh_base::verif_hooks::event("direct_addr:schedule_run", "deferred");
             }
         }
     }
@@ -770,12 +774,23 @@ impl DirectAddrUpdateState {
     fn try_run(&mut self, if_state: IfStateDetails) {
         match self.net_reporter.clone().try_lock_owned() {
             Ok(net_reporter) => {
+                #[cfg(feature = "verif-hooks")]
+                iroh_base::verif_hooks::event(
+                    "direct_addr:try_run",
+                    if self.want_update.is_some() {
+                        "started"
+                    } else {
+                        "idle"
+                    },
+                );
                 if let Some(why) = self.want_update.take() {
                     self.run(why, if_state, net_reporter);
                 }
             }
             Err(_) => {
                 // do nothing
+                #[cfg(feature = "verif-hooks")]
+                iroh_base::verif_hooks::event("direct_addr:try_run", "locked");
             }
         }
     }
@@ -815,6 +830,11 @@ impl DirectAddrUpdateState {
         let inner_token = token.child_token();
         task::spawn(
             async move {
+                #[cfg(feature = "verif-hooks")]
+                {
+                    iroh_base::verif_hooks::event("netreport:run_start", &format!("{why:?}"));
+                    iroh_base::verif_hooks::point_async("direct_addr:run_started", "").await;
+                }
                 let fut = token.run_until_cancelled(time::timeout(
                     NET_REPORT_TIMEOUT,
                     net_reporter.get_report(if_state, why.is_major(), inner_token),
@@ -834,7 +854,11 @@ impl DirectAddrUpdateState {
 
                 // mark run as finished
                 debug!("direct addr update done ({:?})", why);
+                #[cfg(feature = "verif-hooks")]
+                iroh_base::verif_hooks::event("netreport:run_finish", &format!("{why:?}"));
                 run_done.send(()).await.ok();
+                #[cfg(feature = "verif-hooks")]
+                iroh_base::verif_hooks::point_async("direct_addr:after_done", "").await;
             }
             .instrument(tracing::Span::current()),
         );
